@@ -2,8 +2,17 @@
 
    The implementation model is the shared system model C21/Sys.v (Subscriptions::tick with its
    priority sort `sort_by(|s1, s2| s2.1.cmp(&s1.1))`, as repaired by "fix: subscriptions were
-   served in ascending priority order").  A case is an operation list; the observation after
-   every operation is the publish responses taken from the session (in order) and, per live
+   served in ascending priority order"), extended HERE by the ModifySubscription service
+   (services/subscription.rs `modify_subscription`: Subscriptions::get_mut, revised interval /
+   keep-alive / lifetime counts, Subscription::set_priority, both counters reset), because the
+   priority of a subscription is not fixed at creation: a client may change it between two
+   scheduling rounds.
+
+   A case is a HISTORY on one Subscriptions instance: an operation list (the operations of
+   C21/Sys.v — write, timer tick, publish request, create / delete subscription, create / delete
+   item, republish, set publishing mode — and HModifySub) with many scheduling rounds, so that
+   anything the implementation keeps between two rounds is exercised.  The observation after every
+   operation is the publish responses taken from the session (in order) and, per live
    subscription, the number of notifications still waiting for a publish request.
 
    The property, on one scheduling round (one call of Subscriptions::tick):
@@ -11,7 +20,9 @@
          subscription, and
      (b) if the round answered a subscription of priority p, then no live subscription of
          priority > p is left with a notification ready.
-   Priorities are the ones the client asked for in the case (the k-th OCreateSub gets id k).
+   The priority of a subscription at a round is the one the client asked for LAST: in the
+   CreateSubscription of the case (the k-th OCreateSub gets id k) or in a later ModifySubscription
+   ([prio_step] / [prios_after]; a specification of its own, not read off the model state).
    An OPublish on a full request queue runs two rounds (enqueue_publish_request ticks before and
    after queueing); the observation does not separate them, so for such an operation the oracle
    only asks that the responses split into two non-increasing runs. *)
@@ -20,14 +31,93 @@ Import ListNotations.
 From OV Require Export C21.Sys.
 Open Scope Z_scope.
 
-(* priority requested for subscription id (ids are handed out 1, 2, ... in creation order) *)
-Fixpoint create_prios (ops : list op) : list Z :=
-  match ops with
-  | [] => []
-  | OCreateSub prio _ _ _ _ :: r => prio :: create_prios r
-  | _ :: r => create_prios r
+(* ------------------------------------------------------------- ModifySubscription *)
+(* limits of the server the harness builds (server/mod.rs constants, ServerState::new) *)
+Definition MIN_PUBLISHING_MS : Z := 100.     (* SUBSCRIPTION_TIMER_RATE_MS *)
+Definition DEFAULT_KAC : Z := 10.            (* DEFAULT_KEEP_ALIVE_COUNT *)
+Definition MAX_KAC : Z := 30000.             (* MAX_KEEP_ALIVE_COUNT *)
+Definition MAX_LIFE : Z := 90000.            (* MAX_KEEP_ALIVE_COUNT * 3 *)
+
+(* SubscriptionService::revise_subscription_values on whole milliseconds and counts; the
+   product `revised_max_keep_alive_count * 3` is at most 90000, no overflow *)
+Definition revise_interval (i : Z) : Z := Z.max i MIN_PUBLISHING_MS.
+Definition revise_kac (k : Z) : Z :=
+  if MAX_KAC <? k then MAX_KAC else if k =? 0 then DEFAULT_KAC else k.
+Definition revise_life (kac' l : Z) : Z :=
+  let m := kac' * 3 in if l <? m then m else if MAX_LIFE <? l then MAX_LIFE else l.
+
+(* the body of modify_subscription on the subscription found by get_mut: set_publishing_interval
+   (resets the lifetime counter to the OLD maximum, overwritten below), set_max_keep_alive_count,
+   set_max_lifetime_count, set_priority, reset_lifetime_counter, reset_keep_alive_counter *)
+Definition modify_sub (s : sub) (prio interval kac life : Z) : sub :=
+  let ka := revise_kac kac in
+  let lt := revise_life ka life in
+  mk_sub (s_id s) (revise_interval interval) lt ka prio (s_items s) (s_state s) lt ka
+         (s_fms s) (s_enabled s) (s_seqnext s) (s_lastseq s) (s_nextitem s) (s_lasttime s) (s_notifs s).
+
+(* operations of a history *)
+Inductive hop :=
+| HOp (o : op)                                      (* an operation of C21/Sys.v *)
+| HModifySub (sub prio interval kac life : Z).      (* ModifySubscription *)
+
+Record case := mk_hist { h_nvars : Z; h_ops : list hop }.
+
+Section GenericH.
+Variable tick : sys -> bool -> option (sys * list resp).
+
+(* one operation.  ModifySubscription answers BadSubscriptionIdInvalid for an unknown id, else
+   Good with the revised values (reported in the message slot of the observation: publishing
+   interval, lifetime count, keep-alive count) *)
+Definition hstep_g (y : sys) (opix : Z) (h : hop) : option (sys * Z * option msg * list resp) :=
+  match h with
+  | HOp o => step_g tick y opix o
+  | HModifySub id prio interval kac life =>
+      match find_sub id (y_subs y) with
+      | None => Some (y, ST_SUB_INVALID, None, [])
+      | Some s =>
+          let s' := modify_sub s prio interval kac life in
+          Some (set_subs y (replace_sub s' (y_subs y)), ST_GOOD,
+                Some (mk_msg (s_interval s') (s_maxlife s') (s_maxka s') []), [])
+      end
   end.
-Definition prio_of (c : case) (id : Z) : Z := nth (Z.to_nat (id - 1)) (create_prios (c_ops c)) 0.
+
+Fixpoint run_hops_g (y : sys) (opix : Z) (ops : list hop) : list opres * bool :=
+  match ops with
+  | [] => ([], false)
+  | h :: r =>
+      match hstep_g y opix h with
+      | None => ([], true)
+      | Some (y1, st, m, rs) =>
+          let '(tr, p) := run_hops_g y1 (opix + 1) r in
+          (mk_opres st m rs (snapshot y1) :: tr, p)
+      end
+  end.
+End GenericH.
+
+Definition hinit (c : case) : sys := init (mk_case (h_nvars c) []).
+
+(* the code as it is *)
+Definition hstep := hstep_g sys_tick.
+Definition run_hops := run_hops_g sys_tick.
+Definition run_ev (c : case) : list opres * bool := run_hops (hinit c) 0 (h_ops c).
+Definition run (c : case) : list Z := enc_trace (run_ev c).
+
+(* ------------------------------------------------------------- the specification side *)
+(* The priorities the client asked for, by subscription id (ids are handed out 1, 2, ... in
+   creation order, never reused): a create appends, a ModifySubscription of an id that was handed
+   out overwrites.  (Deleted / expired subscriptions keep a meaningless entry; the property only
+   speaks about live ones.) *)
+Definition prio_step (ps : list Z) (h : hop) : list Z :=
+  match h with
+  | HOp (OCreateSub prio _ _ _ _) => ps ++ [prio]
+  | HModifySub id prio _ _ _ =>
+      if (1 <=? id) && (id <=? len ps) then set_nth (Z.to_nat (id - 1)) prio ps else ps
+  | _ => ps
+  end.
+Definition prios_after (pre : list hop) : list Z := fold_left prio_step pre [].
+(* requested priority of subscription id *)
+Definition pr (ps : list Z) (id : Z) : Z := nth (Z.to_nat (id - 1)) ps 0.
+Definition prio_at (pre : list hop) (id : Z) : Z := pr (prios_after pre) id.
 
 Definition resp_subs (rs : list resp) : list Z :=
   flat_map (fun r => match r with RPub _ sub _ _ _ _ => [sub] | RFault _ _ => [] end) rs.
@@ -46,36 +136,39 @@ Fixpoint two_runs (l : list Z) : bool :=
   end.
 
 (* (b): no live subscription with a higher priority than an answered one keeps a notification *)
-Definition none_starved (c : case) (answered : list Z) (subs : list (Z * Z * Z)) : bool :=
+Definition none_starved (ps : list Z) (answered : list Z) (subs : list (Z * Z * Z)) : bool :=
   forallb (fun i =>
     forallb (fun t => let '(j, _, pending) := t in
-                      negb (prio_of c i <? prio_of c j) || (pending =? 0)) subs) answered.
+                      negb (pr ps i <? pr ps j) || (pending =? 0)) subs) answered.
 
 (* was the request queue full before the operation (then an OPublish runs two rounds) *)
 Definition queue_full (sn : snap) : bool := 2 * len (sn_subs sn) <=? len (sn_reqs sn).
 
-Definition check_op (c : case) (o : op) (before : snap) (r : opres) : bool :=
+(* [ps]: the requested priorities at the time of the operation *)
+Definition check_op (ps : list Z) (h : hop) (before : snap) (r : opres) : bool :=
   let answered := resp_subs (o_resps r) in
-  let prios := map (prio_of c) answered in
-  match o with
-  | OPublish _ _ _ =>
+  let prios := map (pr ps) answered in
+  match h with
+  | HOp (OPublish _ _ _) =>
       if queue_full before then two_runs prios
-      else non_increasing prios && none_starved c answered (sn_subs (o_snap r))
-  | _ => non_increasing prios && none_starved c answered (sn_subs (o_snap r))
+      else non_increasing prios && none_starved ps answered (sn_subs (o_snap r))
+  | _ => non_increasing prios && none_starved ps answered (sn_subs (o_snap r))
   end.
 
 Definition empty_snap : snap := mk_snap [] [] [] [].
 
-Fixpoint check_trace (c : case) (ops : list op) (before : snap) (tr : list opres) : bool :=
+Fixpoint check_trace (ps : list Z) (ops : list hop) (before : snap) (tr : list opres) : bool :=
   match tr, ops with
   | [], _ => true
-  | r :: tr', o :: ops' => check_op c o before r && check_trace c ops' (o_snap r) tr'
+  | r :: tr', h :: ops' =>
+      let ps' := prio_step ps h in
+      check_op ps' h before r && check_trace ps' ops' (o_snap r) tr'
   | _ :: _, [] => false
   end.
 
 Definition oracle (c : case) (out : list Z) : bool :=
   match decode out with
-  | Some (tr, _) => check_trace c (c_ops c) empty_snap tr
+  | Some (tr, _) => check_trace [] (h_ops c) empty_snap tr
   | None => false
   end.
 
@@ -94,6 +187,32 @@ Module Legacy.
   Definition prio_order (subs : list sub) : list Z :=
     map fst (fold_right ins_prio [] (map (fun s => (s_id s, s_prio s)) subs)).
   Definition sys_tick := sys_tick_g prio_order sub_tick.
-  Definition run_ev (c : case) : list opres * bool := run_ops_g sys_tick (init c) 0 (c_ops c).
+  Definition run_ev (c : case) : list opres * bool := run_hops_g sys_tick (hinit c) 0 (h_ops c).
   Definition run (c : case) : list Z := enc_trace (run_ev c).
 End Legacy.
+
+(* A server that does not apply the priority of a ModifySubscription (a refutation target that
+   shows the oracle looks at priorities changed between rounds) *)
+Module NoPrioChange.
+  Definition hstep (y : sys) (opix : Z) (h : hop) :=
+    match h with
+    | HModifySub id prio interval kac life =>
+        match find_sub id (y_subs y) with
+        | Some s => hstep_g sys_tick y opix (HModifySub id (s_prio s) interval kac life)
+        | None => hstep_g sys_tick y opix h
+        end
+    | _ => hstep_g sys_tick y opix h
+    end.
+  Fixpoint run_hops (y : sys) (opix : Z) (ops : list hop) : list opres * bool :=
+    match ops with
+    | [] => ([], false)
+    | h :: r =>
+        match hstep y opix h with
+        | None => ([], true)
+        | Some (y1, st, m, rs) =>
+            let '(tr, p) := run_hops y1 (opix + 1) r in
+            (mk_opres st m rs (snapshot y1) :: tr, p)
+        end
+    end.
+  Definition run (c : case) : list Z := enc_trace (run_hops (hinit c) 0 (h_ops c)).
+End NoPrioChange.
